@@ -612,21 +612,59 @@ def mismatch_refused(ctx, rid, body, operand_pred, key, what, sinks=None, floor=
     """for every comparison of the two designated operands: when they differ, no sink (default: success
     return) is reachable"""
     fv = fnview(ctx, body, policy)
-    sites = comparison_sites(fv, operand_pred)
+    sites = eq_sites(fv, operand_pred)
     ctx.ob(rid, len(sites) >= floor, f"{key}/comparison-present",
            f"{what}: the comparison is no longer made in `{body.name}`", where=f"{body.file}:{body.line}",
            sample=f"{len(sites)} comparison site(s)")
     sinks = sinks if sinks is not None else success_blocks(fv)
-    for bi, c, is_ne, r0, r1 in sites:
-        equal_edges = fv.result_edges(bi, c, "err" if is_ne else "ok")
-        differ_edges = fv.result_edges(bi, c, "ok" if is_ne else "err")
+    for bi, line, equal_edges, differ_edges, r0, r1 in sites:
         live = fv.reach(0, cut_edges=equal_edges)
         # only paths that go through this comparison matter
         bad = [s for s in sinks if s[0] in live and any(s[0] in fv.reach(v, cut_edges=equal_edges) for (_, v) in differ_edges)]
         ctx.ob(rid, bool(differ_edges) and not bad, f"{key}/mismatch-refused",
                f"{what}: `{body.name}` can still succeed when `{r0[:80]}` differs from `{r1[:80]}`",
-               where=f"{body.file}:{c.line}", sample=f"{r0[:60]} vs {r1[:60]}: sink unreachable on the != edge")
+               where=f"{body.file}:{line}", sample=f"{r0[:60]} vs {r1[:60]}: sink unreachable on the != edge")
     return sites
+
+
+def consistent_cut(fv, start_block, stop_nodes=()):
+    """edges infeasible on paths that start at `start_block`, because an earlier branch on the same named boolean
+    variable (not reassigned in between) already fixed its value"""
+    b = fv.b
+    nv = fv.named() if not fv.keep_names else fv
+    facts = []
+    for sb in sorted(fv.live_blocks()):
+        if b.term(sb).kind != "switch":
+            continue
+        for tg, atom in atoms.edge_atoms(nv, sb):
+            if atom is None or atom[0] != "bool":
+                continue
+            if (sb, tg) in fv.removed:
+                continue
+            if start_block != sb and fv.must_pass(start_block, {(sb, tg)}) and start_block in fv.live_blocks():
+                facts.append((atom, sb))
+    if not facts:
+        return set()
+    cut = set()
+    after = fv.reach(start_block, cut_nodes=set(stop_nodes))
+    for sb in sorted(after):
+        if b.term(sb).kind != "switch":
+            continue
+        for tg, atom in atoms.edge_atoms(nv, sb):
+            if atom is None or atom[0] != "bool":
+                continue
+            for fact, fb in facts:
+                if fb == sb:
+                    continue
+                if atoms.entails(fact, atoms.negate(atom)):
+                    # the variable must not be redefined between start and this switch
+                    name = atom[1][0]
+                    locs = [l for l in range(len(b.local_tys)) if b.local_name(l) == name]
+                    defblocks = {d[0] for l in locs for d in fv.defs.get(l, [])}
+                    between = after & {x for x in range(fv.n) if sb in fv.reach(x, cut_nodes=set(stop_nodes))}
+                    if not (defblocks & (between - {start_block})):
+                        cut.add((sb, tg))
+    return cut
 
 
 # ---------------------------------------------------------------- loops
@@ -768,3 +806,89 @@ def payload_bool_edges(fv, bi, call):
                 elif listed == {1}:
                     fe.add((bj, t.otherwise))
     return te, fe
+
+
+def eq_sites(fv, operand_pred):
+    """equality tests between two designated operands, in either form (PartialEq call, or primitive ==/!=
+    feeding a branch): [(block, line, equal_edges, differ_edges, r0, r1)]"""
+    out = []
+    for bi, c, is_ne, r0, r1 in comparison_sites(fv, operand_pred):
+        out.append((bi, c.line, fv.result_edges(bi, c, "err" if is_ne else "ok"),
+                    fv.result_edges(bi, c, "ok" if is_ne else "err"), r0, r1))
+    b = fv.b
+    for bi in sorted(fv.live_blocks()):
+        t = b.term(bi)
+        if t.kind != "switch" or t.discr.place is None or not t.discr.place.is_local():
+            continue
+        if b.ty(t.discr.place.local) != "bool":
+            continue
+        e = strip_ref(fv.expr(t.discr))
+        pol = True
+        while e[0] == "not":
+            e = strip_ref(e[1])
+            pol = not pol
+        if e[0] != "cmp" or e[1] not in ("==", "!="):
+            continue
+        if any(x[0] == "call" and "cmp::PartialEq" in x[1] for x in [e]):
+            continue
+        r0, r1 = render(e[2]), render(e[3])
+        if not (operand_pred(r0, r1) or operand_pred(r1, r0)):
+            continue
+        # skip comparisons already reported through their PartialEq call
+        if any(o[4] == r0 and o[5] == r1 for o in out):
+            continue
+        true_e, false_e = set(), set()
+        fv._bool_switch(bi, t, False, "ok", true_e)
+        fv._bool_switch(bi, t, False, "err", false_e)
+        if not pol:
+            true_e, false_e = false_e, true_e
+        eqe, dife = (true_e, false_e) if e[1] == "==" else (false_e, true_e)
+        out.append((bi, t.line, eqe, dife, r0, r1))
+    return out
+
+
+def reach_consistent(fv, starts, cut_nodes=(), cut_edges=(), facts0=()):
+    """blocks reachable from `starts` (iterable of blocks) on paths that are consistent in the values of named
+    boolean variables: a branch on `x` / `!x` fixes x until x is reassigned.  (A tiny path-sensitive domain: the
+    state is the set of known boolean variables.)"""
+    b = fv.b
+    nv = fv.named() if not fv.keep_names else fv
+    cut_nodes = set(cut_nodes)
+    cut_edges = set(cut_edges) | fv.removed
+    # per block: names of bool variables (re)defined there
+    name_of = {l: b.local_name(l) for l in range(len(b.local_tys)) if b.local_name(l) and b.ty(l) == "bool"}
+    defs_in = {}
+    for l, n in name_of.items():
+        for d in fv.defs.get(l, []):
+            defs_in.setdefault(d[0], set()).add(n)
+    edge_atom = {}
+    for sb in range(fv.n):
+        if b.cleanup[sb] or b.term(sb).kind != "switch":
+            continue
+        for tg, atom in atoms.edge_atoms(nv, sb):
+            if atom is not None and atom[0] == "bool" and atom[1][0] in name_of.values():
+                edge_atom[(sb, tg)] = (atom[1][0], atom[2])
+    seen = set()
+    out = set()
+    work = [(s, frozenset(facts0)) for s in starts if s not in cut_nodes]
+    while work:
+        blk, facts = work.pop()
+        if (blk, facts) in seen:
+            continue
+        seen.add((blk, facts))
+        out.add(blk)
+        f = dict(facts)
+        for n in defs_in.get(blk, ()):
+            f.pop(n, None)
+        for v in fv.succ[blk]:
+            if v in cut_nodes or (blk, v) in cut_edges:
+                continue
+            ea = edge_atom.get((blk, v))
+            nf = dict(f)
+            if ea is not None:
+                n, val = ea
+                if n in nf and nf[n] != val:
+                    continue        # inconsistent with what an earlier branch established
+                nf[n] = val
+            work.append((v, frozenset(nf.items())))
+    return out
